@@ -29,6 +29,24 @@ def h8(s):
     return hashlib.sha1(s.encode()).hexdigest()[:8]
 
 
+def bound_check(run, prefix, what, expected, got, discarded, inconclusive):
+    """audit2 M6: nothing is dropped without a bound.  [expected] scenarios were asked for, [got] produced a
+    trace that reached the acceptor, [discarded] carried the harness' own stall marker (TIMING), [inconclusive]
+    ran the acceptor out of fuel even alone with ten times the fuel."""
+    lost = discarded + inconclusive
+    limit = max(5, (5 * max(got + discarded, 1)) // 100)
+    detail = {"expected_scenarios": expected, "scenarios_with_trace": got, "discarded_timing": discarded,
+              "inconclusive": inconclusive, "limit": limit}
+    if lost > limit:
+        run.violation(prefix + "harness-failed:discarded", detail,
+                      "%s: %d traces were discarded (process stalled) or inconclusive (acceptor fuel) next to %d usable "
+                      "ones - more than the %d the check tolerates: the run proves too little" % (what, lost, got, limit), True)
+    if 2 * got < expected:
+        run.violation(prefix + "harness-failed:few-scenarios", detail,
+                      "%s: only %d of the %d scenarios asked for produced a usable trace" % (what, got, expected), True)
+    return detail
+
+
 def run_batch(args, timeout):
     rc, out = C.sh([os.path.join(C.BIN, "cluster"), "-mode", "runner-batch", "-census"] + args, timeout=timeout)
     scripts, traces, problems, unknown = {}, {}, {}, {}
@@ -83,9 +101,25 @@ def one_leg(run, args, stats, samples, timeout=1500):
     if not ok:
         run.violation("cluster:harness-failed", {"args": args}, "C18 cluster census driver failed to run", True)
         return
+    # an inconclusive verdict (acceptor fuel) is retried alone with ten times the fuel before it counts
+    inconc = {n: traces[n] for n, (v, _) in verdict.items() if v == "INCONCLUSIVE" and n not in propfail}
+    if inconc:
+        v2, pf2, mp2, s2, ok2 = model(inconc, fuel=200000)
+        if ok2:
+            verdict.update(v2)
+            modelprop.update(mp2)
+            summ["inconclusive"] = int(summ.get("inconclusive", 0)) - len(inconc) + int(s2.get("inconclusive", 0))
+            summ["accepted"] = int(summ.get("accepted", 0)) + int(s2.get("accepted", 0))
     rejected = [n for n, (v, _) in verdict.items() if v in ("REJECT", "BADTRACE") and n not in propfail]
-    confirmed = {}
+    confirmed, offline_ok = {}, set()
     for n in rejected[:20]:
+        # the RECORDED trace is a real execution: it is dropped only if the model accepts it when replayed
+        # offline, alone (i.e. the first verdict was an artefact of the driver run), never because a re-run
+        # of the scenario happens to take another schedule
+        v1, _, _, _, ok1 = model({n: traces[n]}, fuel=200000)
+        if ok1 and v1.get(n, ("", ""))[0] == "ACCEPT":
+            offline_ok.add(n)
+            continue
         again = 0
         for _ in range(2):
             with tempfile.NamedTemporaryFile("w", suffix=".txt", delete=False) as f:
@@ -139,12 +173,17 @@ def one_leg(run, args, stats, samples, timeout=1500):
             run.violation("cluster:theorem-instance:" + modelprop[name][0], dict(payload, theorem="C18_cluster_" + modelprop[name][0]),
                           "an accepted model state contradicts a proved C18 cluster predicate (extraction / driver fault)", True)
         elif v in ("REJECT", "BADTRACE", "MISSING"):
-            if confirmed.get(name, 2) >= 1:
-                run.violation("cluster:corr:" + h8(sc),
-                              dict(payload, theorem="correspondence B (ClusterGo census acceptor)", reruns_rejected=confirmed.get(name)),
-                              "the runner produced a trace / goroutine census the census model cannot produce (%s)" % info, True)
+            if name in offline_ok:
+                stats["rejects_accepted_offline"] = stats.get("rejects_accepted_offline", 0) + 1
             else:
-                stats["flaky_rejects"] = stats.get("flaky_rejects", 0) + 1
+                rep = confirmed.get(name)
+                if rep == 0:
+                    stats["rejects_not_reproduced"] = stats.get("rejects_not_reproduced", 0) + 1
+                run.violation("cluster:corr:" + h8(sc),
+                              dict(payload, theorem="correspondence B (ClusterGo census acceptor)",
+                                   reproduced="%s/2" % ("?" if rep is None else rep)),
+                              "the runner produced a trace / goroutine census the census model cannot produce (%s); "
+                              "re-running the scenario alone reproduced it %s of 2 times" % (info, "?" if rep is None else rep), True)
         if len(samples) < 3 and v == "ACCEPT":
             samples.append({"script": sc, "trace": " ".join(toks)})
 
@@ -202,6 +241,10 @@ def leg(run):
     distinct = len(stats.pop("distinct", set()))
     if stats.get("reported"):
         cov["violations_by_shape"] = stats["reported"]
+    expected = sum(n for _, n in plan)
+    cov["bounds"] = bound_check(run, "cluster:", "C18 cluster leg", expected,
+                                stats.get("accepted", 0) + stats.get("rejected", 0),
+                                stats.get("discarded", 0), stats.get("inconclusive", 0))
     cov.update({
         "scenarios": stats.get("scenarios", 0),
         "distinct_traces": distinct,
@@ -213,7 +256,8 @@ def leg(run):
         "op_distribution": stats.get("op_distribution", {}),
         "inconclusive": stats.get("inconclusive", 0),
         "timing_stalls_discarded": stats.get("discarded", 0),
-        "flaky_rejects": stats.get("flaky_rejects", 0),
+        "rejects_not_reproduced_but_reported": stats.get("rejects_not_reproduced", 0),
+        "rejects_accepted_offline": stats.get("rejects_accepted_offline", 0),
         "families": dict(plan),
         "samples": samples,
         "rule": "scenario = PRNG script (config-map bursts over 1-3 ids with the same id's configuration changing again and "
